@@ -1,14 +1,18 @@
 //! Per-property drivers. Each has a parent side (enumerate tasks, merge, report) and a worker side
 //! (execute tasks against the real code).
 
+use crate::explore::e1::World;
 use crate::pool;
 use serde_json::{json, Value};
 
+pub mod c01;
+pub mod e1common;
 pub mod smoke;
 
 pub fn parent_main(prop: &str, tier: &str) -> i32 {
     match prop {
         "SMOKE" => smoke::parent(tier),
+        "C01" => c01::parent(tier),
         _ => {
             eprintln!("unknown property {}", prop);
             2
@@ -19,8 +23,52 @@ pub fn parent_main(prop: &str, tier: &str) -> i32 {
 pub fn worker_main(prop: &str, tier: &str, _slot: usize) {
     match prop {
         "SMOKE" => pool::worker_loop(|t, io| smoke::handle(tier, t, io)),
+        "C01" => {
+            let mut h = c01::handle_factory();
+            pool::worker_loop(|t, io| h(tier, t, io))
+        }
         _ => {}
     }
+}
+
+/// replay of an E1 history without the explorer: every step's observation, then the probes
+pub fn e1common_replay(make: fn(&str) -> Option<Box<dyn World>>, r: &Value) -> Value {
+    let spec = r["spec"].as_str().unwrap_or("");
+    let hist: Vec<usize> = r["history"].as_array().map(|a| a.iter().map(|x| x.as_u64().unwrap_or(0) as usize).collect()).unwrap_or_default();
+    let mut w = match make(spec) {
+        Some(w) => w,
+        None => return json!({"error": format!("unknown spec {}", spec)}),
+    };
+    let mut steps = Vec::new();
+    if let Err(e) = w.reset() {
+        return json!({"error": e});
+    }
+    let mut ok = true;
+    for a in hist.iter() {
+        match w.apply(*a) {
+            Ok(s) => {
+                steps.push(json!({"action": w.describe(*a), "observed": s.obs, "agrees_with_model": s.ok, "deviation": s.dev.map(|d| json!({"sig": d.0, "detail": d.1}))}));
+                if !s.ok {
+                    ok = false;
+                    break;
+                }
+            }
+            Err(e) => {
+                steps.push(json!({"action": w.describe(*a), "machinery_error": e}));
+                ok = false;
+                break;
+            }
+        }
+    }
+    let mut probe_devs = Vec::new();
+    if ok {
+        if let Ok(p) = w.probe(&hist) {
+            for (s, d) in p.devs {
+                probe_devs.push(json!({"sig": s, "detail": d}));
+            }
+        }
+    }
+    json!({"spec": spec, "steps": steps, "probe_deviations": probe_devs})
 }
 
 pub fn replay_main(path: &str) -> i32 {
